@@ -372,19 +372,39 @@ fn run_check(prop: &str, tier: Tier) -> CheckOut {
                 stats.merge(&x.0);
                 vios.merge(x.1);
             };
-            add(sweep::c03::run(tier));
-            add(sweep::c01::run(Tier::Quick));
-            add(sweep::c14::run(Tier::Quick));
-            add(sweep::c15::run(tier, "C15"));
-            add(sweep::c15::run(Tier::Quick, "C05"));
-            add(sweep::c16::run(Tier::Quick));
+            // transcript mode (localisation of one differing shard): run only the part of the
+            // corpus that feeds that shard
+            let only_shard = std::env::var("VERIF_TRANSCRIPT_SHARD").unwrap_or_default();
+            let wants = |prefix: &str| only_shard.is_empty() || only_shard.starts_with(prefix);
+            if wants("enc/") {
+                add(sweep::c03::run(tier));
+            }
+            if wants("dec/") {
+                add(sweep::c01::run(Tier::Quick));
+            }
+            if wants("val/") {
+                add(sweep::c14::run(Tier::Quick));
+            }
+            if wants("mem/") {
+                add(sweep::c15::run(tier, "C15"));
+                add(sweep::c15::run(Tier::Quick, "C05"));
+            }
+            if wants("cls/") {
+                add(sweep::c16::run(Tier::Quick));
+            }
             let (dplan, eplan) = c17_plans(tier);
-            let mut dor = xdec::Oracles::default();
-            dor.conform = true;
-            add(run_dec_plan(dplan, &dor, "C02", "C01"));
-            let mut eor = xenc::EOracles::default();
-            eor.conform = true;
-            add(run_enc_plan(eplan, &eor, "C04", "C03"));
+            if wants("xdec/") {
+                let dplan: Vec<_> = dplan.into_iter().filter(|it| only_shard.is_empty() || only_shard.starts_with(&format!("xdec/{}/", it.enc))).collect();
+                let mut dor = xdec::Oracles::default();
+                dor.conform = true;
+                add(run_dec_plan(dplan, &dor, "C02", "C01"));
+            }
+            if wants("xenc/") {
+                let eplan: Vec<_> = eplan.into_iter().filter(|it| only_shard.is_empty() || only_shard.starts_with(&format!("xenc/{}/", it.enc))).collect();
+                let mut eor = xenc::EOracles::default();
+                eor.conform = true;
+                add(run_enc_plan(eplan, &eor, "C04", "C03"));
+            }
             return CheckOut { level: "exploration", stats, vios, rule: "C17 corpus".into(), assumptions: vec![], technique: "corpus digests".into() };
         }
         "C13" => {
